@@ -243,7 +243,10 @@ def run_pool(ex, case):
     for steps in itertools.product(STEPS[:4], repeat=2):
         paths.append(("b", steps))
     refs = [build_path(xd, m, roots[lab], st) for lab, st in paths]
-    refs2 = [build_path(xd, m, roots[lab], st) for lab, st in paths]      # independent construction
+    # independent construction: another manager, other container objects with other contents, same labels
+    m2 = xd.Manager()
+    roots2 = {"a": m2.ref({"x": 1.5, "name": "a"}, "a"), "b": m2.ref([7, 8, 9], "b")}
+    refs2 = [build_path(xd, m2, roots2[lab], st) for lab, st in paths]
     note(ex, "pool_pairs", 0)
     # same path => equal, equal hash
     for p, a, b in zip(paths, refs, refs2):
